@@ -953,6 +953,66 @@ func TestVerif_C32(t *testing.T) {
 		}
 	}
 
+	// the transaction-level view: outputs built for a recipient through the transaction builder (real output
+	// positions, with key-less outputs of other types in front of or between them) are viewed with the recipient's
+	// private view key; every key of a script output must come back as the recipient's public spend key
+	for i := 0; i < r.N(400, 8000); i++ {
+		wlt := pool[rng.Intn(len(pool))]
+		tx := common.NewTransactionV5(common.XINAssetId)
+		layout := rng.Intn(4)
+		nout := 1 + rng.Intn(4)
+		var scriptAt []int
+		for o := 0; o < nout; o++ {
+			special := layout == 1 && o == 0 || layout == 2 && o%2 == 1 || layout == 3 && rng.Intn(2) == 0
+			if special {
+				tx.Outputs = append(tx.Outputs, &common.Output{Type: common.OutputTypeWithdrawalSubmit, Amount: common.NewInteger(1), Withdrawal: &common.WithdrawalData{Address: "a", Tag: "t"}})
+				continue
+			}
+			seed := vC32RandBytes(rng, 64)
+			a := wlt.addr
+			okAdd := s.guard("transaction-view", "build", nil, func() {
+				tx.AddOutputWithType(common.OutputTypeScript, []*common.Address{&a}, common.NewThresholdScript(1), common.NewInteger(1), seed)
+			})
+			if !okAdd {
+				break
+			}
+			scriptAt = append(scriptAt, len(tx.Outputs)-1)
+		}
+		if len(scriptAt) == 0 {
+			continue
+		}
+		var views []*common.Output
+		if !s.guard("transaction-view", "view", nil, func() { views = tx.ViewGhostKey(&wlt.addr.PrivateViewKey) }) {
+			continue
+		}
+		r.Eval()
+		r.Count("transaction_level_views", 1)
+		wit := map[string]any{"private_view": wlt.addr.PrivateViewKey.String(), "public_spend": wlt.addr.PublicSpendKey.String(), "outputs": len(tx.Outputs), "script_outputs_at": scriptAt}
+		if len(views) != len(scriptAt) {
+			r.Violation("C32|common.Transaction.ViewGhostKey|wrong-number-of-viewed-outputs", fmt.Sprintf("%d script outputs, %d viewed", len(scriptAt), len(views)), wit)
+			continue
+		}
+		okAll := true
+		for vi, v := range views {
+			for _, k := range v.Keys {
+				if *k != wlt.addr.PublicSpendKey {
+					okAll = false
+					wit["output_position"] = scriptAt[vi]
+					wit["viewed"] = k.String()
+				}
+			}
+		}
+		if !okAll {
+			cls := "all-script"
+			if scriptAt[len(scriptAt)-1] != len(scriptAt)-1 {
+				cls = "key-less-output-before-a-script-output"
+			}
+			r.Violation("C32|common.Transaction.ViewGhostKey|viewed!=public-spend|"+cls, "viewing a transaction's script outputs with the recipient's private view key does not give back the recipient's public spend key", wit)
+			continue
+		}
+		r.Nontrivial(fmt.Sprintf("txview|%s|%v", wlt.addr.PublicSpendKey.String()[:16], scriptAt))
+	}
+
 	// R1 hex-printed values, and accepted texts
 	for i := 0; i < nHex; i++ {
 		s.hexValues(i == 3)
